@@ -100,6 +100,12 @@ class Color(enum.Enum):
 Point = collections.namedtuple('Point', ['x', 'y'])
 
 
+class Level(enum.IntEnum):
+    """an int that is also an object with a __dict__ (its children are its attributes)"""
+    LOW = 1
+    HIGH = 1000
+
+
 class MyError(Exception):
     pass
 
@@ -272,7 +278,7 @@ def _func(x):
 ATOMS = {
     'bytes': lambda: b'ab\xff', 'bytearray': lambda: bytearray(b'xy'), 'complex': lambda: 3 + 4j,
     'datetime': lambda: datetime.datetime(2024, 1, 2, 3, 4, 5), 'deque': lambda: collections.deque([1, 2, 3]),
-    'range': lambda: range(5), 'enum': lambda: Color.RED, 'namedtuple': lambda: Point(1, 2),
+    'range': lambda: range(5), 'enum': lambda: Color.RED, 'intenum': lambda: Level.HIGH, 'namedtuple': lambda: Point(1, 2),
     'generator': lambda: _gen(), 'function': lambda: _func, 'builtin': lambda: len, 'module': lambda: types,
     'type': lambda: Plain, 'lambda': lambda: (lambda: 0), 'slotted': lambda: _slotted(),
     'str_raises': StrRaises, 'repr_raises': ReprRaises, 'len_raises': LenRaises, 'getattr_attrerror': GetattrAttrError,
@@ -609,6 +615,9 @@ def host_source(case):
         # the captured value is built in a function of its own: a loop (comprehension) on the tracepoint's own line would give
         # a second 'line' event in the host function, which completes a deferred snapshot before the return / raise
         lines += ['def big():', '    return %s' % case['capture_helper']]
+    if case.get('mutate'):
+        # the host changes a local the snapshot recorded at the tracepoint's line, then returns that same object
+        lines += ['def fill(r):', '    r.append(1000)', '    r.append("x" * 40)', '    return r']
     lines.append('def host(%s):' % ', '.join(names))
     if case.get('locals_self'):
         lines.append('    %s = locals()' % case['locals_self'])
@@ -1067,8 +1076,20 @@ def model_request(case, obs):
             act['deferred'] = {'event': caps[0][0], 'value': caps[0][1]}
         acts.append(act)
     script = clock_of(case) or [0]
-    return {'op': 'collect', 'heap': [fix_heap(o) for o in obs['heap']], 'actions': acts,
-            'clock': {'ts': TS, 'reads': [TS + x for x in script]}}
+    req = {'op': 'collect', 'heap': [fix_heap(o) for o in obs['heap']], 'actions': acts,
+           'clock': {'ts': TS, 'reads': [TS + x for x in script]}}
+    if case.get('mutate'):
+        # two heaps: the walker saw the objects AFTER the run (= the heap at the return event); the heap at the tracepoint's line
+        # is the same with the mutated list as the case built it (the host only appended to it)
+        req['heap2'] = req['heap']
+        loc = obs['heap'][obs['frames_locals'][0]]
+        idx = [i for k, _, i in loc['items'] if k == case['mutate']][0]
+        n0 = len([sp for nm, j in case['locals'] if nm == case['mutate'] for sp in case['objs'][j]['e']])
+        before = dict(req['heap'][idx])
+        before['seq'] = list(before['seq'][:n0])
+        before['len'] = n0
+        req['heap'] = req['heap'][:idx] + [before] + req['heap'][idx + 1:]
+    return req
 
 
 def counts_looks(case):
@@ -1617,6 +1638,24 @@ def gen_huge(rng):
         c['huge'] = 'attribute'
     k = rng.randint(0, min(1, len(locs)))
     c['locals'] = locs[:k] + head + locs[k:] + tail
+    return c
+
+
+K_STALE = 'C15/stale-capture-of-recorded-object'
+
+
+def gen_stale(rng):
+    """a deferred snapshot whose host CHANGES a recorded local between the tracepoint's line and the return event and returns
+    that same object: the captured value is answered by the identity cache with the entry made at the line (recorded finding
+    K_STALE).  The model runs the two phases on two heaps."""
+    c = gen_case(rng, nobj=rng.choice([3, 6, 10]), capture='return', watches=rng.random() < 0.3, stream='stale-capture',
+                 lim={'vars': None, 'str': rng.choice([None, 8]), 'coll': rng.choice([None, 3]), 'depth': rng.choice([None, 3])})
+    c['objs'].append({'t': 'list', 'e': [0] * rng.randint(0, 2)})
+    c['locals'] = [l for l in c['locals'] if l[0] != 'acc'] + [['acc', len(c['objs']) - 1]]
+    rng.shuffle(c['locals'])
+    c['mutate'] = 'acc'
+    c['capture_expr'] = 'fill(acc)'
+    c['stage'] = rng.choice(['line_capture', 'method_capture'])
     return c
 
 
